@@ -7,11 +7,20 @@
 //	heap n                  lexperm n          mperm f1 f2 ..   parts n        intparts n
 //	rpprod P f1 f2 ..       rpperm P n         pattern P n      topo mMASK n
 //
-// P is a prefix predicate: pI (member I of the fixed family below) or hSEED:NUM:DEN (a pseudo
+// P is a prefix predicate: pI (member I of the fixed family below), hSEED:NUM:DEN (a pseudo
 // random truth table: a 31-bit LCG hash of the prefix decides acceptance with probability
-// NUM/DEN).  MASK is the bit set of the pairs i<j (bit j*(j-1)/2+i) on which less(i,j) holds.
+// NUM/DEN), or one of the strongly pruning families used with large objects: sC (sum of the
+// prefix <= C), dC (last entry within 1 of its position and at most C entries above their
+// position), eC (last entry among the two largest and at most C entries that are not a new
+// maximum).  MASK is the bit set of the pairs i<j (bit j*(j-1)/2+i) on which less(i,j) holds;
+// instead of mMASK the relation may be fI.J.K..: the total order 0<1<..<n-1 without the pairs
+// (I,I+1), (J,J+1), .. (not transitive), which scales to large n.
 //
-// Observation: <count>:<v1>/<v2>/..;<three further Next results> where a value is its entries
+// A trailing token @K is a window: only the first K objects are drained and compared and Next
+// is not called again (for families too large to drain: large n, factors or n at MaxInt).
+//
+// Observation: <count>:<v1>/<v2>/..;<three further Next results> (or <K>+:<v1>/../<vK>;WIN when
+// the window was filled) where a value is its entries
 // joined by '.', the empty tuple is 'e', a set partition is its blocks joined by '|'.  For the
 // iterators whose order is not documented (heap, pattern, topo) the projected part is the
 // sorted sequence and the strict part the sequence in the order produced.
@@ -99,6 +108,11 @@ func parsePred(tok string) func([]int) bool {
 		}
 		return func(a []int) bool { return fixedPred(i, a) }
 	}
+	if tok[0] == 's' || tok[0] == 'd' || tok[0] == 'e' {
+		c := atoi(tok[1:])
+		kind := tok[0]
+		return func(a []int) bool { return prunePred(kind, c, a) }
+	}
 	if tok[0] == 'h' {
 		f := strings.Split(tok[1:], ":")
 		seed, _ := strconv.Atoi(f[0])
@@ -109,9 +123,60 @@ func parsePred(tok string) func([]int) bool {
 	panic("bad predicate " + tok)
 }
 
+// prunePred: the strongly pruning predicate families (a is never empty).
+func prunePred(kind byte, c int, a []int) bool {
+	l := len(a)
+	last := a[l-1]
+	switch kind {
+	case 's':
+		t := 0
+		for _, v := range a {
+			t += v
+			if t > c {
+				return false
+			}
+		}
+		return true
+	case 'd':
+		if last-(l-1) > 1 || (l-1)-last > 1 {
+			return false
+		}
+		t := 0
+		for i, v := range a {
+			if v > i {
+				t++
+			}
+		}
+		return t <= c
+	case 'e':
+		if last < l-2 {
+			return false
+		}
+		t, mx := 0, -1
+		for _, v := range a {
+			if v < mx {
+				t++
+			} else {
+				mx = v
+			}
+		}
+		return t <= c
+	}
+	panic("bad predicate kind")
+}
+
 func pairBit(i, j int) uint { return uint(j*(j-1)/2 + i) }
 
 func parseLess(tok string) func(i, j int) bool {
+	if tok[0] == 'f' {
+		free := map[int]bool{}
+		if len(tok) > 1 {
+			for _, t := range strings.Split(tok[1:], ".") {
+				free[atoi(t)] = true
+			}
+		}
+		return func(i, j int) bool { return i < j && !(j == i+1 && free[i]) }
+	}
 	mask, err := strconv.ParseUint(tok[1:], 10, 64)
 	if tok[0] != 'm' || err != nil {
 		panic("bad relation " + tok)
@@ -123,22 +188,62 @@ func parseLess(tok string) func(i, j int) bool {
 
 func cp(a []int) []int { return append([]int{}, a...) }
 
-func refProduct(n []int) [][]int {
-	var out [][]int
+// col collects objects in the order generated; with max > 0 generation stops after max objects
+// (the generators below produce the documented order directly, so a prefix is a window).
+type col struct {
+	max int
+	out [][]int
+}
+
+func (c *col) add(a []int) { c.out = append(c.out, cp(a)) }
+func (c *col) full() bool  { return c.max > 0 && len(c.out) >= c.max }
+
+// refProduct: lexicographic order.
+func refProduct(n []int, max int) [][]int {
+	c := &col{max: max}
 	cur := make([]int, len(n))
 	var rec func(i int)
 	rec = func(i int) {
 		if i == len(n) {
-			out = append(out, cp(cur))
+			c.add(cur)
 			return
 		}
-		for v := 0; v < n[i]; v++ {
+		for v := 0; v < n[i] && !c.full(); v++ {
 			cur[i] = v
 			rec(i + 1)
 		}
 	}
 	rec(0)
-	return out
+	return c.out
+}
+
+// refPrefixProduct: depth-first search with pruning (independent of filtering the product, with
+// which it is compared on all small cases).
+func refPrefixProduct(f func([]int) bool, n []int, max int) [][]int {
+	c := &col{max: max}
+	for _, v := range n {
+		if v < 1 {
+			return nil
+		}
+	}
+	cur := make([]int, 0, len(n))
+	var rec func()
+	rec = func() {
+		if len(cur) == len(n) {
+			c.add(cur)
+			return
+		}
+		i := len(cur)
+		for v := 0; v < n[i] && !c.full(); v++ {
+			cur = append(cur, v)
+			if f(cur) {
+				rec()
+			}
+			cur = cur[:i]
+		}
+	}
+	rec()
+	return c.out
 }
 
 func lexLess(a, b []int) bool {
@@ -159,48 +264,79 @@ func colexLess(a, b []int) bool {
 	return false
 }
 
-func refComb(n, k int) [][]int {
-	var out [][]int
+// refComb: lexicographic order.
+func refComb(n, k, max int) [][]int {
+	c := &col{max: max}
 	cur := make([]int, 0, k)
 	var rec func(from int)
 	rec = func(from int) {
 		if len(cur) == k {
-			out = append(out, cp(cur))
+			c.add(cur)
 			return
 		}
-		for v := from; v < n; v++ {
+		for v := from; v < n && !c.full(); v++ {
 			cur = append(cur, v)
 			rec(v + 1)
 			cur = cur[:len(cur)-1]
 		}
 	}
 	rec(0)
-	return out
+	return c.out
+}
+
+// refCombColex: colexicographic order, generated directly: by largest element, then recursively.
+func refCombColex(n, k, max int) [][]int {
+	c := &col{max: max}
+	cur := make([]int, k)
+	var rec func(j, bound int) // fills cur[0..j-1] with the j-subsets of [0,bound) in colex order
+	rec = func(j, bound int) {
+		if j == 0 {
+			c.add(cur)
+			return
+		}
+		for m := j - 1; m < bound && !c.full(); m++ {
+			cur[j-1] = m
+			rec(j-1, m)
+		}
+	}
+	rec(k, n)
+	return c.out
 }
 
 // refMultiComb lists the frequency vectors v with 0 <= v[i] <= m[i] and sum k in
-// colexicographic order.
-func refMultiComb(m []int, k int) [][]int {
-	var out [][]int
-	for _, v := range refProduct(addOne(m)) {
-		s := 0
-		for _, x := range v {
-			s += x
-		}
-		if s == k {
-			out = append(out, v)
-		}
-	}
-	sort.SliceStable(out, func(i, j int) bool { return colexLess(out[i], out[j]) })
-	return out
-}
-
-func addOne(m []int) []int {
-	r := make([]int, len(m))
+// colexicographic order (last coordinate most significant), generated directly; multiplicities
+// are capped at k first so that huge ones (MaxInt) cost nothing and no sum overflows.
+func refMultiComb(m []int, k, max int) [][]int {
+	c := &col{max: max}
+	cap := make([]int, len(m))
+	pre := make([]int, len(m)+1) // pre[i] = sum of the capped multiplicities of 0..i-1
 	for i, v := range m {
-		r[i] = v + 1
+		cap[i] = v
+		if v > k {
+			cap[i] = k
+		}
+		pre[i+1] = pre[i] + cap[i]
 	}
-	return r
+	cur := make([]int, len(m))
+	var rec func(i, left int) // fills cur[0..i] with sum left
+	rec = func(i, left int) {
+		if i < 0 {
+			if left == 0 {
+				c.add(cur)
+			}
+			return
+		}
+		lo := left - pre[i]
+		if lo < 0 {
+			lo = 0
+		}
+		for x := lo; x <= cap[i] && x <= left && !c.full(); x++ {
+			cur[i] = x
+			rec(i-1, left-x)
+		}
+	}
+	rec(len(m)-1, k)
+	return c.out
 }
 
 func freqToMultiset(v []int) []int {
@@ -213,16 +349,19 @@ func freqToMultiset(v []int) []int {
 	return r
 }
 
-func refPerms(n int) [][]int {
+func ones(n int) []int {
 	f := make([]int, n)
 	for i := range f {
 		f[i] = 1
 	}
-	return refMultisetPerms(f)
+	return f
 }
 
-func refMultisetPerms(freq []int) [][]int {
-	var out [][]int
+func refPerms(n, max int) [][]int { return refMultisetPerms(ones(n), max) }
+
+// refMultisetPerms: lexicographic order.
+func refMultisetPerms(freq []int, max int) [][]int {
+	c := &col{max: max}
 	left := cp(freq)
 	total := 0
 	for _, v := range freq {
@@ -232,10 +371,10 @@ func refMultisetPerms(freq []int) [][]int {
 	var rec func()
 	rec = func() {
 		if len(cur) == total {
-			out = append(out, cp(cur))
+			c.add(cur)
 			return
 		}
-		for v := range left {
+		for v := 0; v < len(left) && !c.full(); v++ {
 			if left[v] > 0 {
 				left[v]--
 				cur = append(cur, v)
@@ -246,20 +385,90 @@ func refMultisetPerms(freq []int) [][]int {
 		}
 	}
 	rec()
-	return out
+	return c.out
+}
+
+// refPrefixPerms: depth-first search over the prefixes of permutations with pruning; test
+// receives the prefix (standardised when std is set).  Lexicographic order.
+func refPrefixPerms(n int, f func([]int) bool, std bool, max int) [][]int {
+	c := &col{max: max}
+	used := make([]bool, n)
+	cur := make([]int, 0, n)
+	var rec func()
+	rec = func() {
+		if len(cur) == n {
+			c.add(cur)
+			return
+		}
+		for v := 0; v < n && !c.full(); v++ {
+			if used[v] {
+				continue
+			}
+			cur = append(cur, v)
+			ok := false
+			if std {
+				ok = f(standardise(cur))
+			} else {
+				ok = f(cur)
+			}
+			if ok {
+				used[v] = true
+				rec()
+				used[v] = false
+			}
+			cur = cur[:len(cur)-1]
+		}
+	}
+	rec()
+	return c.out
+}
+
+// refLinearExtensions: the permutations in which i stands before j whenever less(i,j), by
+// repeatedly choosing an element all of whose predecessors are placed.
+func refLinearExtensions(n int, less func(i, j int) bool) [][]int {
+	c := &col{}
+	placed := make([]bool, n)
+	cur := make([]int, 0, n)
+	var rec func()
+	rec = func() {
+		if len(cur) == n {
+			c.add(cur)
+			return
+		}
+		for v := 0; v < n; v++ {
+			if placed[v] {
+				continue
+			}
+			ok := true
+			for u := 0; u < v && ok; u++ {
+				if !placed[u] && less(u, v) {
+					ok = false
+				}
+			}
+			if ok {
+				placed[v] = true
+				cur = append(cur, v)
+				rec()
+				cur = cur[:len(cur)-1]
+				placed[v] = false
+			}
+		}
+	}
+	rec()
+	return c.out
 }
 
 // refRGS lists the restricted growth strings of length n in lexicographic order.
-func refRGS(n int) [][]int {
-	var out [][]int
+func refRGS(n, max int) [][]int {
+	c := &col{max: max}
 	cur := make([]int, n)
 	var rec func(i, mx int)
 	rec = func(i, mx int) {
 		if i == n {
-			out = append(out, cp(cur))
+			c.add(cur)
 			return
 		}
-		for v := 0; v <= mx+1; v++ {
+		for v := 0; v <= mx+1 && !c.full(); v++ {
 			cur[i] = v
 			nm := mx
 			if v > mx {
@@ -272,7 +481,7 @@ func refRGS(n int) [][]int {
 		cur[0] = 0
 		rec(1, 0)
 	}
-	return out
+	return c.out
 }
 
 func rgsToBlocks(r []int) string {
@@ -295,23 +504,23 @@ func rgsToBlocks(r []int) string {
 
 // refIntParts lists the partitions of n (non-increasing positive parts) in reverse
 // lexicographic order.
-func refIntParts(n int) [][]int {
-	var out [][]int
+func refIntParts(n, max int) [][]int {
+	c := &col{max: max}
 	cur := []int{}
 	var rec func(left, mx int)
 	rec = func(left, mx int) {
 		if left == 0 {
-			out = append(out, cp(cur))
+			c.add(cur)
 			return
 		}
-		for v := min(left, mx); v >= 1; v-- {
+		for v := min(left, mx); v >= 1 && !c.full(); v-- {
 			cur = append(cur, v)
 			rec(left-v, v)
 			cur = cur[:len(cur)-1]
 		}
 	}
 	rec(n, n)
-	return out
+	return c.out
 }
 
 func min(a, b int) int {
@@ -377,6 +586,18 @@ func filter(all [][]int, keep func([]int) bool) [][]int {
 	return out
 }
 
+func sameLists(a, b [][]int) bool {
+	if len(a) != len(b) {
+		return false
+	}
+	for i := range a {
+		if tup(a[i]) != tup(b[i]) {
+			return false
+		}
+	}
+	return true
+}
+
 // ---------------------------------------------------------------- draining
 
 func tup(a []int) string {
@@ -395,16 +616,20 @@ func tup(a []int) string {
 
 type drained struct {
 	vals []string // formatted values in the order produced
-	tail string   // results of the three calls after the first false; "OVER" if the cap was hit
+	tail string   // results of the three calls after the first false; "WIN" when the window was filled; "OVER" if the cap was hit
 }
 
-// drain calls next until it returns false or more than limit values were produced (an
-// iterator that does not stop), formatting a copy of the value at each step, and then calls
-// next three more times.
-func drain(next func() bool, value func() string, limit int) drained {
+// drain calls next until it returns false, the window (if > 0) is filled, or more than limit
+// values were produced (an iterator that does not stop), formatting a copy of the value at each
+// step; unless the window was filled it then calls next three more times.
+func drain(next func() bool, value func() string, limit, window int) drained {
 	var d drained
 	for next() {
 		d.vals = append(d.vals, value())
+		if window > 0 && len(d.vals) == window {
+			d.tail = "WIN"
+			return d
+		}
 		if len(d.vals) > limit {
 			d.tail = "OVER"
 			return d
@@ -421,6 +646,9 @@ func drain(next func() bool, value func() string, limit int) drained {
 }
 
 func obsOf(vals []string, tail string) string {
+	if tail == "WIN" {
+		return fmt.Sprintf("%d+:%s;WIN", len(vals), strings.Join(vals, "/"))
+	}
 	return fmt.Sprintf("%d:%s;%s", len(vals), strings.Join(vals, "/"), tail)
 }
 
@@ -448,10 +676,17 @@ func firstDiff(a, b []string) string {
 			y = b[i]
 		}
 		if x != y {
-			return fmt.Sprintf("position %d: got %s want %s", i, x, y)
+			return fmt.Sprintf("position %d: got %s want %s", i, clip(x), clip(y))
 		}
 	}
 	return "equal"
+}
+
+func clip(s string) string {
+	if len(s) > 120 {
+		return s[:120] + ".."
+	}
+	return s
 }
 
 func atoi(s string) int {
@@ -470,47 +705,87 @@ func atois(s []string) []int {
 	return r
 }
 
+func isPerm(a []int) bool {
+	seen := make([]bool, len(a))
+	for _, v := range a {
+		if v < 0 || v >= len(a) || seen[v] {
+			return false
+		}
+		seen[v] = true
+	}
+	return true
+}
+
+func maxOf(a []int) int {
+	m := 0
+	for _, v := range a {
+		if v > m {
+			m = v
+		}
+	}
+	return m
+}
+
+// smallSpace: the parameters are small enough for the reference that filters the whole
+// unrestricted enumeration (kept as the primary reference there; the pruned search is checked
+// against it).
+const smallPerm = 8
+
 func exec(line string) hx.Result {
 	f := strings.Fields(line)
 	name := f[0]
+	window := 0
+	if last := f[len(f)-1]; last[0] == '@' {
+		window = atoi(last[1:])
+		f = f[:len(f)-1]
+	}
 	var res hx.Result
 	var d drained
-	var ref []string // the advertised family in the documented order (sorted when unordered)
+	var ref []string // the advertised family in the documented order (sorted when unordered); its first `window` members when a window is set
 	ordered := true
 	boundary := false
+	objLen := 0 // length of the objects, for the size histogram
+	extreme := false
 	fail := func(format string, a ...interface{}) {
 		if len(res.Viol) < 3 {
 			res.Viol = append(res.Viol, hx.Fail("C15:"+name, name+": "+format, a...))
 		}
 	}
+	lim := func(r int) int { return r + 2 }
+	const big = 1 << 40
 	switch name {
 	case "product":
 		n := atois(f[1:])
-		r := refProduct(n)
+		r := refProduct(n, window)
 		it := itertools.Product(n...)
-		d = drain(it.Next, func() string { return tup(it.Value()) }, len(r)+2)
+		d = drain(it.Next, func() string { return tup(it.Value()) }, lim(len(r)), window)
 		ref = tups(r)
 		boundary = len(n) <= 1
 		for _, v := range n {
 			boundary = boundary || v == 0
 		}
+		objLen = len(n)
+		extreme = maxOf(n) > big
 	case "comb", "colex":
 		n, k := atoi(f[1]), atoi(f[2])
-		r := refComb(n, k)
+		var r [][]int
 		if name == "comb" {
+			r = refComb(n, k, window)
 			it := itertools.Combinations(n, k)
-			d = drain(it.Next, func() string { return tup(it.Value()) }, len(r)+2)
+			d = drain(it.Next, func() string { return tup(it.Value()) }, lim(len(r)), window)
 		} else {
-			sort.SliceStable(r, func(i, j int) bool { return colexLess(r[i], r[j]) })
+			r = refCombColex(n, k, window)
 			it := itertools.CombinationsColex(n, k)
-			d = drain(it.Next, func() string { return tup(it.Value()) }, len(r)+2)
+			d = drain(it.Next, func() string { return tup(it.Value()) }, lim(len(r)), window)
 		}
 		ref = tups(r)
 		boundary = n <= 1 || k == 0 || k == n || k == n+1
+		objLen = k
+		extreme = n > big
 	case "mcomb":
 		k := atoi(f[1])
 		m := atois(f[2:])
-		r := refMultiComb(m, k)
+		r := refMultiComb(m, k, window)
 		for _, v := range r {
 			ref = append(ref, tup(freqToMultiset(v)))
 		}
@@ -522,40 +797,73 @@ func exec(line string) hx.Result {
 				fail("FreqValue %v does not describe Value %v", fr, v)
 			}
 			return tup(v)
-		}, len(r)+2)
+		}, lim(len(r)), window)
 		boundary = len(m) <= 1 || k == 0
 		s := 0
 		for _, v := range m {
 			boundary = boundary || v == 0
-			s += v
+			if v > big || s > big {
+				s = big + 1
+			} else {
+				s += v
+			}
 		}
 		boundary = boundary || k == s || k == s+1
+		objLen = len(m)
+		extreme = maxOf(m) > big
 	case "heap", "lexperm":
 		n := atoi(f[1])
-		r := refPerms(n)
-		ref = tups(r)
+		objLen = n
 		if name == "heap" {
 			ordered = false
 			it := itertools.Permutations(n)
-			d = drain(it.Next, func() string { return tup(it.Value()) }, len(r)+2)
+			if window > 0 {
+				// no order is documented: a window can only be checked for "distinct permutations"
+				seen := map[string]bool{}
+				d = drain(it.Next, func() string {
+					v := it.Value()
+					s := tup(v)
+					if len(v) != n || !isPerm(v) {
+						fail("value %s is not a permutation of 0..%d", clip(s), n-1)
+					}
+					if seen[s] {
+						fail("value %s is produced twice", clip(s))
+					}
+					seen[s] = true
+					return s
+				}, window+2, window)
+				if d.tail != "WIN" {
+					fail("exhausted after %d of %d! permutations", len(d.vals), n)
+				}
+				res.Obs = fmt.Sprintf("%d+:;WIN ## %s", len(d.vals), strings.Join(d.vals, "/"))
+				res.Nontrivial = true
+				res.Buckets = []string{name, name + ":window", sizeBucket(objLen)}
+				return res
+			}
+			r := refPerms(n, 0)
+			ref = tups(r)
+			d = drain(it.Next, func() string { return tup(it.Value()) }, lim(len(r)), 0)
 		} else {
+			r := refPerms(n, window)
+			ref = tups(r)
 			it := itertools.LexicographicPermutations(n)
-			d = drain(it.Next, func() string { return tup(it.Value()) }, len(r)+2)
+			d = drain(it.Next, func() string { return tup(it.Value()) }, lim(len(r)), window)
 		}
 		boundary = n <= 1
 	case "mperm":
 		fr := atois(f[1:])
-		r := refMultisetPerms(fr)
+		r := refMultisetPerms(fr, window)
 		ref = tups(r)
 		it := itertools.MultisetPermutations(cp(fr))
-		d = drain(it.Next, func() string { return tup(it.Value()) }, len(r)+2)
+		d = drain(it.Next, func() string { return tup(it.Value()) }, lim(len(r)), window)
 		boundary = len(fr) <= 1
 		for _, v := range fr {
 			boundary = boundary || v == 0
+			objLen += v
 		}
 	case "parts":
 		n := atoi(f[1])
-		for _, g := range refRGS(n) {
+		for _, g := range refRGS(n, window) {
 			ref = append(ref, rgsToBlocks(g))
 		}
 		it := itertools.Partitions(n)
@@ -566,47 +874,86 @@ func exec(line string) hx.Result {
 				bl[i] = strings.ReplaceAll(tup(b), "e", "")
 			}
 			return strings.Join(bl, "|")
-		}, len(ref)+2)
+		}, lim(len(ref)), window)
 		boundary = n <= 1
+		objLen = n
 	case "intparts":
 		n := atoi(f[1])
-		r := refIntParts(n)
+		r := refIntParts(n, window)
 		ref = tups(r)
 		it := itertools.IntegerPartitions(n)
-		d = drain(it.Next, func() string { return tup(it.Value()) }, len(r)+2)
+		d = drain(it.Next, func() string { return tup(it.Value()) }, lim(len(r)), window)
 		boundary = n <= 1
+		objLen = n
 	case "rpprod":
 		p := parsePred(f[1])
 		n := atois(f[2:])
-		r := filter(refProduct(n), func(a []int) bool { return allPrefixesOK(p, a) })
+		r := refPrefixProduct(p, n, window)
+		size := 1
+		for _, v := range n {
+			if v > 0 && size <= 5000 {
+				size *= v
+			} else if v <= 0 {
+				size = 0
+			}
+		}
+		if window == 0 && size <= 5000 {
+			// small: the defining reference is the filter of the unrestricted enumeration
+			r2 := filter(refProduct(n, 0), func(a []int) bool { return allPrefixesOK(p, a) })
+			if !sameLists(r, r2) {
+				panic("harness: the pruned search disagrees with filtering the product")
+			}
+		}
 		ref = tups(r)
 		it := itertools.RestrictedPrefixProduct(p, n...)
-		d = drain(it.Next, func() string { return tup(it.Value()) }, len(r)+2)
+		d = drain(it.Next, func() string { return tup(it.Value()) }, lim(len(r)), window)
 		boundary = len(n) <= 1
 		for _, v := range n {
 			boundary = boundary || v == 0
 		}
+		objLen = len(n)
+		extreme = maxOf(n) > big
 	case "rpperm":
 		p := parsePred(f[1])
 		n := atoi(f[2])
-		r := filter(refPerms(n), func(a []int) bool { return allPrefixesOK(p, a) })
+		r := refPrefixPerms(n, p, false, window)
+		if window == 0 && n <= smallPerm {
+			r2 := filter(refPerms(n, 0), func(a []int) bool { return allPrefixesOK(p, a) })
+			if !sameLists(r, r2) {
+				panic("harness: the pruned search disagrees with filtering the permutations")
+			}
+		}
 		ref = tups(r)
 		it := itertools.RestrictedPrefixPermutations(n, p)
-		d = drain(it.Next, func() string { return tup(it.Value()) }, len(r)+2)
+		d = drain(it.Next, func() string { return tup(it.Value()) }, lim(len(r)), window)
 		boundary = n <= 1
+		objLen = n
 	case "pattern":
 		p := parsePred(f[1])
 		n := atoi(f[2])
-		r := filter(refPerms(n), func(a []int) bool { return allPatternsOK(p, a) })
+		r := refPrefixPerms(n, p, true, 0)
+		if n <= smallPerm {
+			r2 := filter(refPerms(n, 0), func(a []int) bool { return allPatternsOK(p, a) })
+			if !sameLists(r, r2) {
+				panic("harness: the pruned search disagrees with filtering the permutations")
+			}
+		}
 		ref = tups(r)
 		ordered = false
 		it := itertools.PermutationsByPattern(n, p)
-		d = drain(it.Next, func() string { return tup(it.Value()) }, len(r)+2)
+		d = drain(it.Next, func() string { return tup(it.Value()) }, lim(len(r)), 0)
 		boundary = n <= 1
+		objLen = n
 	case "topo":
 		less := parseLess(f[1])
 		n := atoi(f[2])
-		r := filter(refPerms(n), func(a []int) bool { return respects(less, a) })
+		r := refLinearExtensions(n, less)
+		if n <= smallPerm {
+			r2 := filter(refPerms(n, 0), func(a []int) bool { return respects(less, a) })
+			if !sameLists(r, r2) {
+				panic("harness: the linear extensions disagree with filtering the permutations")
+			}
+		}
 		ref = tups(r)
 		ordered = false
 		it := itertools.TopologicalSorts(n, less)
@@ -621,8 +968,9 @@ func exec(line string) hx.Result {
 				fail("InverseValue %v is not the inverse of Value %v", inv, v)
 			}
 			return tup(v)
-		}, len(r)+2)
+		}, lim(len(r)), 0)
 		boundary = n <= 1
+		objLen = n
 	default:
 		panic("unknown iterator " + name)
 	}
@@ -633,9 +981,9 @@ func exec(line string) hx.Result {
 		ref = sortedStrings(ref)
 	}
 	if len(got) != len(ref) || firstDiff(got, ref) != "equal" {
-		fail("yielded %d objects, the family has %d; %s", len(got), len(ref), firstDiff(got, ref))
+		fail("yielded %d objects, the family%s has %d; %s", len(got), map[bool]string{true: " (first objects, window)", false: ""}[window > 0], len(ref), firstDiff(got, ref))
 	}
-	if d.tail != "FFF" {
+	if d.tail != "FFF" && d.tail != "WIN" {
 		fail("after exhaustion the further calls gave %s", d.tail)
 	}
 	if ordered {
@@ -644,7 +992,13 @@ func exec(line string) hx.Result {
 		res.Obs = obsOf(got, d.tail) + " ## " + strings.Join(d.vals, "/")
 	}
 	res.Nontrivial = len(ref) >= 2 || boundary
-	res.Buckets = []string{name, fmt.Sprintf("%s:objects<=%d", name, bucket(len(ref)))}
+	res.Buckets = []string{name, fmt.Sprintf("%s:objects<=%d", name, bucket(len(ref))), sizeBucket(objLen)}
+	if window > 0 {
+		res.Buckets = append(res.Buckets, name+":window")
+	}
+	if extreme {
+		res.Buckets = append(res.Buckets, "extreme-values")
+	}
 	return res
 }
 
@@ -654,6 +1008,20 @@ func bucket(n int) int {
 		b *= 4
 	}
 	return b
+}
+
+func sizeBucket(l int) string {
+	switch {
+	case l <= 8:
+		return "object-length<=8"
+	case l <= 16:
+		return "object-length<=16"
+	case l <= 32:
+		return "object-length<=32"
+	case l <= 64:
+		return "object-length<=64"
+	}
+	return "object-length>64"
 }
 
 // ---------------------------------------------------------------- generation
@@ -901,11 +1269,170 @@ func gen(g *hx.Gen) {
 			g.Emit(fmt.Sprintf("topo m%d %d", m, n))
 		}
 	}
+
+	genLarge(g)
+	genExtreme(g)
+}
+
+// rep returns n copies of v.
+func rep(n, v int) []int {
+	a := make([]int, n)
+	for i := range a {
+		a[i] = v
+	}
+	return a
+}
+
+const maxInt = int(^uint(0) >> 1)
+
+// genLarge: large objects in small families.  The lengths straddle 8, 16, 32 and 64 (where
+// implementations switch algorithms or buffers grow); the family is kept to a few thousand
+// objects by the choice of the other parameters, or only a window of first objects is drained.
+func genLarge(g *hx.Gen) {
+	r := g.Rng
+	lens := []int{9, 16, 17, 18, 32, 33, 64, 65}
+	if g.Thorough() {
+		lens = []int{9, 12, 15, 16, 17, 18, 24, 31, 32, 33, 34, 48, 63, 64, 65, 66, 70}
+	}
+	win := g.Pick(300, 3000)
+	for _, L := range lens {
+		// Product: factors 1 with a few factors 2 (first, last, middle, random positions); all ones; one zero
+		g.Emit("product " + ints(rep(L, 1)))
+		z := rep(L, 1)
+		z[r.Intn(L)] = 0
+		g.Emit("product " + ints(z))
+		for _, pos := range [][]int{{0}, {L - 1}, {0, L - 1}, {L / 2, L/2 + 1, L - 1}, {0, 1, 2, L - 3, L - 2, L - 1}} {
+			a := rep(L, 1)
+			for _, p := range pos {
+				a[p] = 2
+			}
+			g.Emit("product " + ints(a))
+			g.Emit("rpprod p0 " + ints(a))
+			g.Emit("rpprod p2 " + ints(a))
+		}
+		a := rep(L, 1)
+		for i := 0; i < 5; i++ {
+			a[r.Intn(L)] = r.Range(2, 3)
+		}
+		g.Emit("product " + ints(a))
+		g.Emit(fmt.Sprintf("product %s @%d", ints(rep(L, 3)), win))
+		// RestrictedPrefixProduct: full binary/ternary trees pruned to the prefixes of small sum
+		g.Emit("rpprod s2 " + ints(rep(L, 2)))
+		g.Emit("rpprod s1 " + ints(rep(L, 3)))
+		g.Emit(fmt.Sprintf("rpprod s%d %s", r.Range(0, 2), ints(rep(L, 2))))
+		g.Emit(fmt.Sprintf("rpprod h%d:%d:%d %s @%d", r.Intn(1<<30), 63, 64, ints(rep(L, 2)), win))
+
+		// Combinations, CombinationsColex: k near 0 and near n
+		for _, k := range []int{0, 1, 2, L - 2, L - 1, L, L + 1} {
+			g.Emit(fmt.Sprintf("comb %d %d", L, k))
+			g.Emit(fmt.Sprintf("colex %d %d", L, k))
+		}
+		g.Emit(fmt.Sprintf("comb %d %d @%d", L, L/2, win))
+		g.Emit(fmt.Sprintf("colex %d %d @%d", L, L/2, win))
+
+		// MultisetPermutations: one huge multiplicity (total length L), the repeated value small, middle or large
+		if L >= 3 {
+			for _, fr := range [][]int{{L - 2, 1, 1}, {1, L - 2, 1}, {1, 1, L - 2}, {L - 1, 1}, {1, L - 1}, {L - 2, 2}, {2, L - 2}, {L}} {
+				g.Emit("mperm " + ints(fr))
+			}
+			if L <= 33 || g.Thorough() {
+				g.Emit("mperm " + ints([]int{L - 3, 2, 1}))
+				g.Emit("mperm " + ints([]int{1, 2, L - 3}))
+				g.Emit("mperm " + ints([]int{2, L - 3, 1}))
+			}
+			fr := []int{L / 4, L / 4, L / 4, L - 3*(L/4)}
+			g.Emit(fmt.Sprintf("mperm %s @%d", ints(fr), win))
+			g.Emit(fmt.Sprintf("mperm %s @%d", ints([]int{L / 2, L - L/2}), win))
+		}
+		// LexicographicPermutations, Permutations: windows
+		g.Emit(fmt.Sprintf("lexperm %d @%d", L, win))
+		g.Emit(fmt.Sprintf("heap %d @%d", L, win))
+
+		// MultisetCombinations: many kinds with k near 0 / near the total; one huge multiplicity
+		for _, k := range []int{0, 1, 2, L - 2, L - 1, L, L + 1} {
+			g.Emit(fmt.Sprintf("mcomb %d %s", k, ints(rep(L, 1))))
+		}
+		for _, k := range []int{0, 1, 3, L - 1, L, L + 1} {
+			g.Emit(fmt.Sprintf("mcomb %d %s", k, ints([]int{L - 3, 2, 1})))
+			g.Emit(fmt.Sprintf("mcomb %d %s", k, ints([]int{1, 2, L - 3})))
+		}
+		g.Emit(fmt.Sprintf("mcomb %d %s @%d", L/2, ints(rep(L, 2)), win))
+
+		// Partitions, IntegerPartitions: the first objects of a large n
+		g.Emit(fmt.Sprintf("parts %d @%d", L, win))
+		g.Emit(fmt.Sprintf("intparts %d @%d", L, win))
+		g.Emit(fmt.Sprintf("intparts %d @%d", 2*L, win))
+
+		// RestrictedPrefixPermutations / PermutationsByPattern with predicates that prune almost everything
+		c := 1
+		if L <= 18 {
+			c = 2
+		}
+		g.Emit(fmt.Sprintf("rpperm d%d %d", c, L))
+		g.Emit(fmt.Sprintf("rpperm d0 %d", L))
+		g.Emit(fmt.Sprintf("pattern e%d %d", c, L))
+		g.Emit(fmt.Sprintf("pattern e0 %d", L))
+		g.Emit(fmt.Sprintf("rpperm p0 %d @%d", L, win))
+		g.Emit(fmt.Sprintf("rpperm p5 %d @%d", L, win))
+
+		// TopologicalSorts: the total order with a few adjacent pairs left free (2^k sorts), and the last pairs free
+		for _, cnt := range []int{0, 1, 4, 8} {
+			free := map[int]bool{}
+			for len(free) < cnt && len(free) < (L-1)/2 {
+				i := r.Intn(L - 1)
+				if !free[i] && !free[i-1] && !free[i+1] {
+					free[i] = true
+				}
+			}
+			ks := []string{}
+			for i := 0; i < L; i++ {
+				if free[i] {
+					ks = append(ks, strconv.Itoa(i))
+				}
+			}
+			g.Emit(fmt.Sprintf("topo f%s %d", strings.Join(ks, "."), L))
+		}
+		g.Emit(fmt.Sprintf("topo f%d.%d.%d %d", L-4, L-3, L-2, L))
+		g.Emit(fmt.Sprintf("topo f0.1.2 %d", L))
+	}
+	for _, n := range []int{100, 128, 200} {
+		g.Emit(fmt.Sprintf("intparts %d @%d", n, win))
+	}
+	g.Exhaustive(fmt.Sprintf("large objects, small families: for each length L in %v every iterator with parameters that keep the family small (factors 1 and 2, k near 0 or near n, one huge multiplicity, strongly pruning predicates, near-total orders) or a window of the first %d objects", lens, win))
+}
+
+// genExtreme: parameters at the ends of the int range whose sums or products overflow while the
+// family (or the window drained) stays tiny.
+func genExtreme(g *hx.Gen) {
+	M := maxInt
+	vals := []int{M, M - 1, M/2 + 1, M / 2, 1 << 32, 1<<31 - 1}
+	for _, v := range vals {
+		g.Emit(fmt.Sprintf("product %d @40", v))
+		g.Emit(fmt.Sprintf("product 2 %d @40", v))
+		g.Emit(fmt.Sprintf("product %d 2 @40", v))
+		g.Emit(fmt.Sprintf("product %d %d @40", v, v))
+		g.Emit(fmt.Sprintf("product %d 0", v))
+		g.Emit(fmt.Sprintf("product 0 %d %d", v, v))
+		g.Emit(fmt.Sprintf("rpprod p0 %d 0", v))
+		g.Emit(fmt.Sprintf("rpprod s1 %d 2 @3", v))
+		g.Emit(fmt.Sprintf("rpprod s1 2 %d @2", v))
+		for _, k := range []int{0, 1, 2, 3} {
+			g.Emit(fmt.Sprintf("comb %d %d @40", v, k))
+			g.Emit(fmt.Sprintf("colex %d %d @40", v, k))
+		}
+		// MultisetCombinations: huge multiplicities ("unbounded"), small k: the family is tiny
+		for _, m := range [][]int{{v}, {v, 2}, {2, v}, {v, v}, {v, v, v}, {M / 2, M/2 + 1, 1}, {1, v, 0, v}, {v, 0}, {M - v, v, 1}} {
+			for _, k := range []int{0, 1, 2, 3, 5} {
+				g.Emit(fmt.Sprintf("mcomb %d %s", k, ints(m)))
+			}
+		}
+	}
+	g.Exhaustive(fmt.Sprintf("extreme values: factors, n and multiplicities in %v (sums and products overflow int) with k <= 5 or a window of 40 objects", vals))
 }
 
 func main() {
 	hx.Main(hx.Prop{
-		Rule:        "case = one constructor call (iterator, parameters, predicate or relation), drained completely with Value copied at every step and Next called three more times after the first false; non-trivial = the family has >= 2 objects or the parameters sit on a boundary (n <= 1, k in {0,n,n+1}, a zero or single factor/multiplicity); distinct by case text",
+		Rule:        "case = one constructor call (iterator, parameters, predicate or relation), drained completely with Value copied at every step and Next called three more times after the first false; a trailing @K drains only the first K objects; non-trivial = the family (or window) has >= 2 objects or the parameters sit on a boundary (n <= 1, k in {0,n,n+1}, a zero or single factor/multiplicity); distinct by case text",
 		Gen:         gen,
 		Exec:        exec,
 		CaseTimeout: 20 * time.Second,
